@@ -140,7 +140,7 @@ def work_generated(ctx, seed):
     import random
     from basis_set_exchange import manip, sort, validator
     rng = random.Random(seed)
-    b = gen.gen_basis(rng) if seed % 5 else rng.choice([gen.patho_spd, gen.patho_mixed_fused, gen.patho_spd_free_low])(rng)
+    b = gen.gen_basis(rng) if seed % 5 else rng.choice([f for f in gen.PATHOLOGICAL if f not in (gen.patho_dup_function, gen.patho_contraction_on_free)])(rng)
     ops = [('remove_free_primitives', ()), ('uncontract_general', ()), ('uncontract_spdf', (0, )), ('uncontract_segmented', ()), ('make_general', ()),
            ('optimize_general', ()), ('prune_basis', ()), ('sort_basis', ())]
     chain = [rng.choice(ops) for _ in range(rng.randint(1, 4))]
